@@ -3,11 +3,17 @@
 (*                                                                            *)
 (* Input (ndjson, IOEnv.TRACE_FILE), one object per line:                     *)
 (*   id, steps = the history TLC generated (create / add / pass / fire /      *)
-(*   resample / finish records), each extended with                           *)
+(*   resample / finish / stop / sinkfail / recover records), each extended    *)
+(*   with                                                                     *)
 (*     obs.rec   per series, the timestamps (ticks) its sink was handed so    *)
 (*               far by the real Resampler running on the virtual clock       *)
 (*     obs.jn    per series, how many timestamps series 1 had been handed     *)
 (*               when the series was added (None = not added yet)             *)
+(*     obs.lf    per series, how many timestamps series 1 had been handed     *)
+(*               when the harness closed its source / armed its sink to       *)
+(*               raise (None = healthy)                                       *)
+(*     obs.failed  the series named by the ResamplingError resample() ended   *)
+(*               with (empty otherwise)                                       *)
 (*     obs.pending  how many sink calls have not returned yet                 *)
 (*     obs.dead  the task running Resampler.resample() has ended, obs.err     *)
 (*               the name of the exception it ended with                      *)
@@ -34,7 +40,7 @@ Fail(clause, detail, devs) == Say([tid |-> Tr.id, l |-> l, clause |-> clause, de
 Check(ok, clause, detail) == IF ok THEN TRUE ELSE Fail(clause, detail, <<>>)
 
 \* clauses on one observation o, against the spec state after the action (c, al, tk, jn)
-ObsChecks(o, c, al, tk, jn) ==
+ObsChecks(o, c, al, tk, jn, lf) ==
     LET ref == AlignRef(al, c)
         rec == [s \in Series |-> o.rec[s]]
     IN
@@ -43,11 +49,14 @@ ObsChecks(o, c, al, tk, jn) ==
          /\ Check(ConsecutiveSeq(rec[s]), "C07.Consecutive", <<"series", s, "got", rec[s]>>)
          /\ Check(jn[s] = 0 => FirstTickWindowSeq(rec[s], c), "C07.FirstTickWindow",
                   <<"series", s, "got", rec[s], "created", c>>)
-         /\ Check(rec[s] = EmittedOf(tk, jn, s), "C07.Timeline",
-                  <<"series", s, "got", rec[s], "expected", EmittedOf(tk, jn, s)>>)
+         /\ Check(rec[s] = EmittedOf(tk, jn, lf, s), "C07.Timeline",
+                  <<"series", s, "got", rec[s], "expected", EmittedOf(tk, jn, lf, s)>>)
     \* o.jn[s]: how many timestamps series 1 had been handed when the harness added series s
-    /\ Check(SameForAll(rec) /\ \A s \in Series : o.jn[s] # None => rec[s] = SubSeq(rec[1], o.jn[s] + 1, Len(rec[1])),
-             "C07.SameForAllSeries", <<"got", o.rec, "added_after", o.jn>>)
+    \* o.lf[s]: how many it had been handed when series s broke; a series that broke is handed
+    \* nothing more, every other one exactly what series 1 is handed - across failures of others
+    /\ Check(SameForAll(rec) /\ \A s \in Series : o.jn[s] # None =>
+                 rec[s] = SubSeq(rec[1], o.jn[s] + 1, IF o.lf[s] = None THEN Len(rec[1]) ELSE o.lf[s]),
+             "C07.SameForAllSeries", <<"got", o.rec, "added_after", o.jn, "broke_after", o.lf>>)
 
 TInit ==
     /\ tid \in 1..Len(TraceLog)
@@ -65,22 +74,33 @@ TStep ==
           ELSE IF r.a = "fire" THEN TimerFire
           ELSE IF r.a = "resample" THEN Resample(r.lat)
           ELSE IF r.a = "finish" THEN Finish
+          ELSE IF r.a = "stop" THEN SourceStops(r.s)
+          ELSE IF r.a = "sinkfail" THEN SinkRaises(r.s)
+          ELSE IF r.a = "recover" THEN Recover
           ELSE FALSE
-       /\ Quiescent(phase') => ObsChecks(r.obs, created', alignTo', ticks', joined')
+       /\ Quiescent(phase') => ObsChecks(r.obs, created', alignTo', ticks', joined', left')
        \* the harness has just run the real loop until nothing was ready, at an instant at which
        \* no timer is overdue and no sink is pending: every tick that is due must have been made
-       /\ (r.a \in {"create", "fire", "resample", "finish"} /\ phase' = "sleep" /\ now' < nextTick'
+       /\ (r.a \in {"create", "fire", "resample", "finish", "recover"} /\ phase' = "sleep" /\ now' < nextTick'
              /\ r.obs.pending = 0 /\ ~r.obs.dead) =>
              Check(CaughtUpSeq(r.obs.rec[1], created', now'), "C07.CaughtUp",
                    <<"now", now', "created", created', "series 1 got", r.obs.rec[1]>>)
-       \* resample() must still be running.  When it is not, the verdict line names the cause if
-       \* it ended in the very Finish before which a series had been added to the pending gather
-       \* (the defect repaired in /repo 9f8dfea).  The harness restarts a dead loop after taking
-       \* the observation, so the remaining steps of the trace are still checked.
-       /\ (Quiescent(phase') \/ r.a = "finish") =>
-             (IF ~r.obs.dead THEN TRUE
+       \* resample() must still be running - except that the Finish of a tick in which a series
+       \* failed ends it with ResamplingError (documented; the client recovers in the next step).
+       \* When it ended otherwise, the verdict line names the cause if a series had been added to
+       \* the pending gather (the defect repaired in /repo 9f8dfea).  The harness recovers a dead
+       \* loop after taking the observation, so the remaining steps are still checked.
+       \* (The real loop runs a whole chain finish-fire-resample-finish in one go, so the error may
+       \* already be observed while the spec is still in a transient state of that chain; it is
+       \* judged where the spec's own Finish raises, or at the next quiescent state.)
+       /\ (Quiescent(phase') \/ phase' = "raised" \/ (r.a = "finish" /\ r.obs.err # "ResamplingError")) =>
+             (IF ~r.obs.dead \/ (phase' = "raised" /\ r.obs.err = "ResamplingError") THEN TRUE
               ELSE Fail("C07.LoopAlive", <<"resample() ended with", r.obs.err>>,
                         IF r.a = "finish" /\ Dev_AddDuringGather THEN <<"Dev_AddDuringGather">> ELSE <<>>))
+       \* the transcription says which series the error names (reported as a disagreement only)
+       /\ phase' = "raised" =>
+             Check(r.obs.dead /\ {r.obs.failed[i] : i \in 1..Len(r.obs.failed)} = failed',
+                   "C07.FailureReport", <<"error names", r.obs.failed, "transcription", failed', "ended with", r.obs.err>>)
     /\ l' = l + 1 /\ UNCHANGED tid
     /\ (l' > Len(Tr.steps)) => Done
 
